@@ -237,6 +237,20 @@ Section Oracles.
   Qed.
 End Oracles.
 
+(* ---------- OperatorLimits.Validate: tiers and flat JetStream limits are mutually exclusive; no blank tier name ----------
+   The limits are an abstract value: the code asks whether the flat limits equal the zero struct, how many tiers there
+   are, and whether a tier is named "". *)
+Lemma vc_op_limits (o : op_limits) (vr : list go_issue) :
+  V2.OperatorLimits_Validate (js_zero (ol_js o)) (fun k => existsb (fun t => (fst t =? k)%string) (ol_tiers o))
+    (Z.of_nat (List.length (ol_tiers o))) vr
+  = vr ++ map goi (v_op_limits o).
+Proof.
+  unfold V2.OperatorLimits_Validate, v_op_limits. cbv zeta.
+  destruct (ol_tiers o) as [|t ts] eqn:E; [cbn; now rewrite app_nil_r|].
+  replace (Z.of_nat (List.length (t :: ts)) >? 0)%Z with true by (symmetry; apply Z.gtb_lt; cbn [List.length]; lia).
+  cbn [is_nil]. rewrite map_app, !map_when. factor_reports. reflexivity.
+Qed.
+
 (* ---------- checkPermission, Permission.Validate, Permissions.Validate ---------- *)
 Lemma vc_check_permission (subj : string) (pq : bool) (vr : list go_issue) :
   V2.checkPermission vr subj pq = vr ++ map goi (v_check_permission subj pq).
